@@ -1025,7 +1025,6 @@ func (m *Machine) indexAddr(fr *Frame, x *ssa.IndexAddr) Value {
 }
 
 func (m *Machine) elemPtr(cells []*Cell, n int, idx *Term, signed bool) Ptr {
-	tt := m.tt
 	if c, ok := evalConst(idx); ok {
 		i := int64(c)
 		if signed {
@@ -1036,12 +1035,12 @@ func (m *Machine) elemPtr(cells []*Cell, n int, idx *Term, signed bool) Ptr {
 		}
 		return Ptr{C: cells[i]}
 	}
-	inb := tt.Ult(idx, tt.Const(uint64(n), idx.W)) // unsigned compare covers negative too
+	inb := m.inBounds(idx, n) // unsigned compare covers negative too
 	if !m.branch(inb) {
 		m.goPanic(fmt.Sprintf("runtime error: index out of range [symbolic] with length %d", n))
 	}
 	// scalar cells, small: symbolic pointer; else concretise
-	if n <= 64 && n > 0 && isScalarT(cells[0].T) {
+	if n <= 256 && n > 0 && isScalarT(cells[0].T) {
 		if n == 1 {
 			return Ptr{C: cells[0]}
 		}
@@ -1066,7 +1065,7 @@ func (m *Machine) index(fr *Frame, x *ssa.Index) Value {
 			}
 			return ts[c]
 		}
-		if !m.branch(m.tt.Ult(idx, m.tt.Const(uint64(len(ts)), idx.W))) {
+		if !m.branch(m.inBounds(idx, len(ts))) {
 			m.goPanic("runtime error: index out of range")
 		}
 		var res *Term
@@ -1083,6 +1082,16 @@ func (m *Machine) index(fr *Frame, x *ssa.Index) Value {
 	return nil
 }
 
+// inBounds: idx < n as an unsigned comparison at the index's own width. A length that does not fit that
+// width (a 256-entry table indexed by a uint8) makes every index value in range — the constant must not be
+// truncated to the index width.
+func (m *Machine) inBounds(idx *Term, n int) *Term {
+	if idx.W < 64 && uint64(n) >= uint64(1)<<uint(idx.W) {
+		return m.tt.T
+	}
+	return m.tt.Ult(idx, m.tt.Const(uint64(n), idx.W))
+}
+
 func (m *Machine) boundedIndex(idx *Term, n int, signed bool) int {
 	if c, ok := evalConst(idx); ok {
 		if c >= uint64(n) {
@@ -1090,7 +1099,7 @@ func (m *Machine) boundedIndex(idx *Term, n int, signed bool) int {
 		}
 		return int(c)
 	}
-	if !m.branch(m.tt.Ult(idx, m.tt.Const(uint64(n), idx.W))) {
+	if !m.branch(m.inBounds(idx, n)) {
 		m.goPanic(fmt.Sprintf("runtime error: index out of range [symbolic] with length %d", n))
 	}
 	return int(m.concretise(idx, "index"))
@@ -1562,9 +1571,9 @@ func (m *Machine) lookup(fr *Frame, x *ssa.Lookup) Value {
 	if s, ok := base.(StringVal); ok {
 		idx := m.get(fr, x.Index).(*Term)
 		ts := m.stringTerms(s)
-		if _, isConst := evalConst(idx); !isConst && len(ts) > 0 && len(ts) <= 64 {
+		if _, isConst := evalConst(idx); !isConst && len(ts) > 0 && len(ts) <= 256 {
 			// symbolic index into a short string: bounds check, then an ite chain (no fork per position)
-			if !m.branch(m.tt.Ult(idx, m.tt.Const(uint64(len(ts)), idx.W))) {
+			if !m.branch(m.inBounds(idx, len(ts))) {
 				m.goPanic(fmt.Sprintf("runtime error: index out of range [symbolic] with length %d", len(ts)))
 			}
 			res := ts[len(ts)-1]
